@@ -20,3 +20,20 @@ PROBES(1, uint8_t)
 PROBES(2, uint16_t)
 PROBES(4, uint32_t)
 PROBES(8, uint64_t)
+
+/* compiler-barrier probes: xchg, cmpxchg, add_return and sub_return are full barriers, also for the compiler: a plain
+ * load before and after the operation must both be emitted, and so must a plain store before and after it */
+#define CBPROBES(W, T)											\
+__attribute__((noinline)) long cb_xchg_##W(T *p, long *ld, long *st)					\
+{ long a = *ld; *st = 1; (void)uatomic_xchg(p, (T)1); *st = 2; return a + *ld; }			\
+__attribute__((noinline)) long cb_cmpxchg_##W(T *p, long *ld, long *st)					\
+{ long a = *ld; *st = 1; (void)uatomic_cmpxchg(p, (T)0, (T)1); *st = 2; return a + *ld; }		\
+__attribute__((noinline)) long cb_add_return_##W(T *p, long *ld, long *st)				\
+{ long a = *ld; *st = 1; (void)uatomic_add_return(p, (T)1); *st = 2; return a + *ld; }		\
+__attribute__((noinline)) long cb_sub_return_##W(T *p, long *ld, long *st)				\
+{ long a = *ld; *st = 1; (void)uatomic_sub_return(p, (T)1); *st = 2; return a + *ld; }
+
+CBPROBES(1, uint8_t)
+CBPROBES(2, uint16_t)
+CBPROBES(4, uint32_t)
+CBPROBES(8, uint64_t)
